@@ -158,20 +158,25 @@ def oracle_ema(ctx, mb, q, sig, samples, result, fail):
             if mn.shape != tm.shape or not np.array_equal(mn, tm) or not np.array_equal(mx, tx):
                 return fail(f"statistics of constant {name} are not its true min/max", "const-stats")
             continue
-        if t.type != TT.FLOAT32:
+        if t.type not in (TT.FLOAT32, TT.INT32, TT.INT64, TT.INT16, TT.INT8):
             continue
+        # an INTEGER runtime tensor (token ids of an EMBEDDING_LOOKUP, integer data paths) has a moving average like any other: its
+        # min/max are integers, the average is not (evaluated in double precision; the 1e-5 tolerance below absorbs the format)
+        f = np.float32 if t.type == TT.FLOAT32 else np.float64
+        if t.type != TT.FLOAT32:
+            ctx.tag("integer_runtime_tensor_statistics")
         w_min = w_max = None
         for c in conts:
             if name not in c:
                 w_min = None
                 break
             v = c[name]
-            lo, hi = np.float32(np.min(v)), np.float32(np.max(v))
+            lo, hi = f(np.min(v)), f(np.max(v))
             if w_min is None:
                 w_min, w_max = lo, hi
             else:
-                w_min = np.float32(0.95) * w_min + np.float32(1.0 - 0.95) * lo
-                w_max = np.float32(0.95) * w_max + np.float32(1.0 - 0.95) * hi
+                w_min = f(0.95) * w_min + f(1.0 - 0.95) * lo
+                w_max = f(0.95) * w_max + f(1.0 - 0.95) * hi
         if w_min is None:
             continue
         gmin, gmax = float(np.asarray(qv["min"]).reshape(-1)[0]), float(np.asarray(qv["max"]).reshape(-1)[0])
